@@ -17,7 +17,8 @@ HEADLINE = ["cases", "expected_reject", "expected_accept", "accepted_runs", "req
             "transport_inproc_v3sig", "transport_inproc_v2sig", "transport_inproc_v1sig", "transport_raw_socket",
             "differential_pairs"]
 
-VERSIONS = [None, "1", "2", "2.0", "2.1", "2.2", "2.3", "2.10", "3", "3.0", "3.0.1", "3.1", "4", "4.0", "10.2"]
+VERSIONS = [None, "1", "2", "2.0", "2.0.3", "2.1", "2.1.0", "2.1.4", "2.2", "2.2.0", "2.2.1", "2.3", "2.10", "2.99.7", "3", "3.0",
+            "3.0.0", "3.0.1", "3.1", "4", "4.0", "10.2"]
 TRANSPORTS = ["inproc_v3sig", "inproc_v2sig", "inproc_v2strict", "inproc_v1sig", "raw_socket",
               "inproc_v2sig_named_like_v3", "inproc_v3sig_named_like_v2"]
 
